@@ -69,6 +69,14 @@ func x02Paddings(m map[string][5]int) map[string]padding {
 	return pads
 }
 
+func x02Copy(vs map[string][]string) map[string][]string {
+	out := map[string][]string{}
+	for k, l := range vs {
+		out[k] = append([]string{}, l...)
+	}
+	return out
+}
+
 // a permuted copy of the proxy lists; toolchain versions additionally get
 // other os/arch variants of versions that are already there
 func x02Permute(vs map[string][]string, rng *rand.Rand) map[string][]string {
@@ -148,7 +156,9 @@ func TestVerifX02Flow(t *testing.T) {
 		}
 		pads := x02Paddings(c.Paddings)
 		var ucfg *telemetry.UploadConfig
-		versionsForTesting = c.Versions
+		// generate filters the proxy's list in place; the real listProxyVersions
+		// returns a fresh list on every call, so every call here gets its own copy
+		versionsForTesting = x02Copy(c.Versions)
 		pmsg, hang := x02Guard(func() { ucfg, err = generate(recs, pads) })
 		if hang {
 			rec["hang"] = true
@@ -411,6 +421,7 @@ func TestVerifX02Valid(t *testing.T) {
 		rec := rt.M{"kind": "valid", "id": c.ID}
 		var ucfg *telemetry.UploadConfig
 		var err error
+		versionsForTesting = x02Copy(in.Versions)
 		pmsg, hang := x02Guard(func() { ucfg, err = generate(c.Records, pads) })
 		switch {
 		case hang:
